@@ -68,11 +68,19 @@ class EquationParser(object):
             # Any usage of 'exogenous' switches over to the Exogenous block
             # I could skip this, but would need to use eval(), which is dangerous with
             # untrusted inputs.
-            if 'exogenous' in equation.lower():
+            # The marker is looked for in the code part of the line, or in a line that is only a
+            # comment (e.g., '# Exogenous Variables'); a trailing comment on an equation is inert.
+            pos = equation.find('#')
+            if pos > -1:
+                code_part = equation[0:pos]
+            else:
+                code_part = equation
+            if len(code_part.strip()) == 0:
+                code_part = equation
+            if 'exogenous' in code_part.lower():
                 mode = 'exogenous'
                 continue
             # Remove comments (like this one!)
-            pos = equation.find('#')
             if pos > -1:
                 equation = equation[0:pos]
             equation = equation.strip()
